@@ -1,6 +1,7 @@
 package sim
 
 import (
+	"context"
 	"fmt"
 	"io"
 	"strings"
@@ -28,6 +29,14 @@ type c22 struct {
 	count      int
 	fired      bool
 	noCB       bool // the node whose code panics has no panic callback configured (the default)
+	// A reifier that needs a further block to build its view (as a sharded-directory ADL does) loads it through the
+	// link system it was handed, i.e. through the traversal, and panics when it cannot have it. While that load is
+	// outstanding the victim may be cancelled by its caller or, at the responder, by the operator.
+	nested    bool
+	inNested  bool
+	atPoint   bool
+	cancelHow string // "" | ctx | api | bcancel
+	cancelled bool
 }
 
 func newC22() Scenario { return &c22{} }
@@ -83,6 +92,16 @@ func (s *c22) Build(w *World) {
 	for _, c := range s.dagV.Order {
 		inVictim[c] = true
 	}
+	if s.fn == "reifier" && t.Chance(500) {
+		s.nested = true
+		if t.Chance(700) {
+			hows := []string{"ctx", "api"}
+			if s.side == "responder" {
+				hows = []string{"ctx", "bcancel", "bcancel"}
+			}
+			s.cancelHow = hows[t.Draw(len(hows))]
+		}
+	}
 	hit := func(what string) {
 		s.count++
 		if s.count == s.at && !s.fired {
@@ -128,6 +147,23 @@ func (s *c22) Build(w *World) {
 		lsys := node.Store.LinkSystem()
 		if s.fn == "reifier" {
 			lsys.NodeReifier = func(lc linking.LinkContext, n datamodel.Node, ls *linking.LinkSystem) (datamodel.Node, error) {
+				if s.inNested {
+					return n, nil
+				}
+				if s.nested && s.count+1 == s.at && !s.fired {
+					s.inNested, s.atPoint = true, true
+					w.Effect("reifier on %s asks the traversal for a further block", node.Name)
+					_, err := ls.Load(lc, s.dagV.Root, basicnode.Prototype.Any)
+					s.inNested, s.atPoint = false, false
+					if err != nil {
+						w.Effect("reifier on %s: further block: %s", node.Name, errText(err))
+					} else {
+						w.Effect("reifier on %s: further block loaded", node.Name)
+					}
+					if err != nil && s.cancelled {
+						w.Probe("c22-panic-after-cancel")
+					}
+				}
 				hit("node reifier")
 				return n, nil
 			}
@@ -168,12 +204,28 @@ func (s *c22) Build(w *World) {
 				evs = append(evs, r.IssueEvent())
 			}
 		}
+		// (a node notices a cancel between blocks: for the further load to be the one that is cut short, the cancel
+		// has to arrive while the block whose reifier asks for it is still being fetched)
+		if s.cancelHow != "" && !s.cancelled && s.victim.Issued && !s.victim.Done() && !s.fired && (s.atPoint || s.count+1 == s.at) {
+			evs = append(evs, Inject("api", "api|cancel-victim|"+s.cancelHow, func(string) {
+				s.cancelled = true
+				w.Effect("act cancel victim (%s)", s.cancelHow)
+				switch s.cancelHow {
+				case "ctx":
+					s.victim.Cancel()
+				case "api":
+					go func() { _ = s.a.GS.Cancel(context.Background(), s.victim.ID) }()
+				case "bcancel":
+					go func() { _ = s.b.GS.Cancel(context.Background(), s.victim.ID) }()
+				}
+			}))
+		}
 		return evs
 	})
 }
 
 func (s *c22) Describe(w *World) string {
-	return fmt.Sprintf("panic in %s on the %s at call %d (fired=%v) callback=%v; victim dag=%d sibling dag=%d", s.fn, s.side, s.at, s.fired, !s.noCB, len(s.dagV.Order), len(s.dagS.Order))
+	return fmt.Sprintf("panic in %s on the %s at call %d (fired=%v) nested=%v cancel=%s/%v callback=%v; victim dag=%d sibling dag=%d", s.fn, s.side, s.at, s.fired, s.nested, s.cancelHow, s.cancelled, !s.noCB, len(s.dagV.Order), len(s.dagS.Order))
 }
 
 func (s *c22) Done(w *World) bool            { return s.victim.Done() && s.sibling.Done() }
@@ -200,10 +252,21 @@ func (s *c22) Final(w *World) *Violation {
 	if !s.victim.Done() {
 		return &Violation{Property: "C22", Rule: "R2", Signature: "victim-stuck:" + sig, Detail: "the request whose code panicked never terminated"}
 	}
-	if len(s.victim.Errs) == 0 && !(s.fn == "read" && s.side == "requestor") {
+	respFailed := false
+	if s.side == "responder" && len(s.victim.Errs) == 0 {
+		// The requestor finishes as soon as its own traversal has every block; a panic at the responder after the
+		// last block was sent (in the reifier of that block, say) is reported in a terminal status the requestor no
+		// longer waits for. The error the property asks for is then the failure status of the response.
+		out := ResponderOutput(w.Net.WireFor("B", "A"), s.victim.ID)
+		if n := len(out.Statuses); n > 0 && out.Statuses[n-1].IsFailure() {
+			respFailed = true
+			w.Probe("c22-responder-failed-after-requestor-had-everything")
+		}
+	}
+	if len(s.victim.Errs) == 0 && !respFailed && !(s.fn == "read" && s.side == "requestor") {
 		return &Violation{Property: "C22", Rule: "R2", Signature: "victim-no-error:" + sig, Detail: fmt.Sprintf("the panic was not turned into an error for the request: it ended without any error (%d nodes delivered)", len(s.victim.Visits))}
 	}
-	if len(s.victim.Errs) == 0 {
+	if len(s.victim.Errs) == 0 && !respFailed {
 		// the only way to end without an error is to have lost nothing: a panicking
 		// local read counts as a local miss and the block may come from the responder
 		vref := Ref(s.dagV.Root, AllSelector(10), full(s.dagV), 0)
